@@ -287,7 +287,12 @@ class CBackend(Backend):
             self._near_cut(x, "bessel" + kind)
         for idx in np.ndindex(x.shape):
             z = x[idx]
-            out[idx] = complex(fun(nu, mpmath.mpc(z.real, z.imag)))
+            if not (np.isfinite(z.real) and np.isfinite(z.imag)) or abs(z) > 1e6:
+                raise IllConditioned("bessel function of a non-finite / huge argument")
+            try:
+                out[idx] = complex(fun(nu, mpmath.mpc(z.real, z.imag)))
+            except (ValueError, OverflowError, ZeroDivisionError) as ex:
+                raise IllConditioned("bessel function: " + type(ex).__name__)
         return out
 
     def atan2(self, y, x):
